@@ -53,6 +53,10 @@ class C05Machine(M.MCMachine):
         self.labels.add("species:molecular" if k > 1 else "species:atomic")
         if "alias_of" in self.scn:
             self.labels.add("alias-entry")
+        if self.scn.get("share_disp"):
+            ids = [id(m) for nm in self.entry_names() for m in self.elementary(nm)]
+            if len(ids) != len(set(ids)):
+                self.labels.add("object-shared-across-entries")
         for e in self.scn["entries"]:
             if e["t"] in ("add", "mul"):
                 self.labels.add("composite-entry")
